@@ -56,6 +56,13 @@ class Ldmcsu(Gate):
 
         self.definition = QuantumCircuit(self.controls, self.target)
 
+        if len(self.controls) == 1:
+            self.definition.append(
+                UnitaryGate(self.unitary).control(1, ctrl_state=self.ctrl_state),
+                [*self.controls, *self.target],
+            )
+            return
+
         is_main_diag_real = isclose(self.unitary[0, 0].imag, 0.0) and isclose(
             self.unitary[1, 1].imag, 0.0
         )
